@@ -187,14 +187,20 @@ def spec_eval(T, mode, pres, call, res, st):
         if not got.subset(lim):
             bad.append(("get-area-membind-uninit-mask" if cmd == "gamb" else "get-membind-garbage",
                         "%s reported %s, not inside what the kernel and the topology hold (%s)" % (cmd, res["set"], lim.text())))
-    # (g2) cpubind read-back on this system: exactly the kernel's mask restricted to the complete cpuset
-    if mode == "os" and T.this and res["rc"] == 0 and cmd in ("gtcbo", "gtcb") or (mode == "os" and T.this and res["rc"] == 0 and cmd == "gcb" and (fl & 3) == 2):
-        if res["set"] != "-" and "aff" in st and any(e[0] == "getaffinity" for e in res["events"]):
-            want = st["aff"].inter(G.BS(False, (1 << (T.ccs.fin.bit_length())) - 1))
+    # (g2) cpubind read-back on this system: exactly the union of the masks the kernel reported for the tasks that
+    # were asked (restricted to the complete cpuset) - nothing of what the caller's output bitmap held before
+    if mode == "os" and T.this and res["rc"] == 0 and cmd in ("gtcbo", "gtcb", "gcb", "gpcb") and res["set"] != "-" and "aff" in st:
+        gets = [e for e in res["events"] if e[0] == "getaffinity"]
+        if gets and len(gets) == len(res["events"]):
+            want = G.EMPTY
+            for e in gets:
+                want = want.union(st["aff"] if e[1][0] == "0" else st.get("affproc") or st["aff"])
+            want = want.inter(G.BS(False, (1 << (T.ccs.fin.bit_length())) - 1))
             if cmd != "gtcbo":
                 want = want.inter(G.BS(False, (1 << 256) - 1))      # the scripted kernel's cpumask buffer (os nrcpus)
             if not G.BS.parse(res["set"]).eq(want):
-                bad.append(("cpubind-readback:" + cmd, "%s reports %s, the kernel reported %s (complete cpuset %s)" % (cmd, res["set"], st["aff"].text(), T.ccs.text())))
+                bad.append(("cpubind-readback:" + cmd, "%s (flags %d) reports %s, the kernel reported %s for the tasks asked (complete cpuset %s; the output bitmap held %s before the call)" % (
+                    cmd, fl, res["set"], want.text(), T.ccs.text(), st.get("prefill", "0:...88 (default)"))))
     # (g3) last cpu location from a scripted /proc/<tid>/stat: field 39 (after the LAST ')'), whatever the task name
     if mode == "os" and T.this and cmd in ("glcl", "gplcl") and st.get("stat") is not None and any(e[0] == "stat" for e in res["events"]):
         txt = st["stat"]
@@ -224,6 +230,9 @@ MASK_LAST = re.compile(r" set=\S+")
 
 def canon(line, call, T, mode, st):
     """results that depend on the real /proc of the sandbox are not compared"""
+    if call and call["set"] is None and st.get("prefill", "default") != "default" and line.startswith("R rc=0") and " set=- " in line:
+        # "-" = the output bitmap still equals what it held before the call: spelled out under a non-default prefill
+        line = line.replace(" set=- ", " set=%s " % G.BS.parse(st["prefill"]).text(), 1)
     if call and mode == "os" and T is not None and T.this and line.startswith("R rc=0") and st.get("stat") is None:
         if (call["cmd"] == "glcl" and (st.get("getcpu_fail") or not (call["flags"] & 2 and not call["flags"] & 1))) or call["cmd"] == "gplcl":
             return MASK_LAST.sub(" set=*", line, 1)
@@ -244,6 +253,7 @@ class Evaluator:
         T, mode, pres, ci = None, "os", 0, 0
         pending = None
         tainted = False
+        same_call = {}
         st = {"mempol": G.EMPTY}
         state_lines = []     # config/state lines of the current topology block (for the shrunk replay)
         block = 0
@@ -254,8 +264,14 @@ class Evaluator:
             if t[0] == "new":
                 state_lines = [l]; T = None; mode = "os"; block += 1; tainted = False
                 continue
+            if t[0] == "prefill":
+                state_lines.append(l)
+                st["prefill"] = t[1]
+                continue
             if t[0] in ("src", "flags", "env", "filter", "os", "hookret", "mode", "destroy"):
                 state_lines.append(l)
+                if t[0] in ("os", "hookret"):
+                    same_call = {}       # answers are only comparable under the same scripted kernel / hooks
                 if ci < len(cl) and cl[ci].startswith("config-error"):
                     ci += 1      # a configuration the library refused: the topology falls back to the default source
                 if t[0] == "mode":
@@ -269,6 +285,8 @@ class Evaluator:
                     st["mempol"] = G.BS.parse(t[3])
                 if t[0] == "os" and t[1] == "aff":
                     st["aff"] = G.BS.parse(t[2])
+                if t[0] == "os" and t[1] == "affproc":
+                    st["affproc"] = G.BS.parse(t[2])
                 if t[0] == "os" and t[1] == "stat":
                     st["stat"] = None if t[2] == "-" else (b"" if t[2] == "empty" else bytes.fromhex(t[2]))
                 if t[0] == "os" and t[1] == "ret" and t[2] in ("getcpu", "all"):
@@ -365,6 +383,18 @@ class Evaluator:
                 self.stats["full_to_complete"] += 1
             run.count(a + "|" + l, nontrivial=bool(res["events"]) or res["rc"] != 0,
                       sample={"call": l, "impl": a, "model": b}, kind=("%s:%s" % (mode, call["cmd"])))
+            # every get-call OVERWRITES its output: the same call under another pre-filled output gives the same answer
+            if call["set"] is None and "prefill" in st:
+                k = (block, mode, l)
+                prev = same_call.get(k)
+                pf_now = "0:0000000000000000" if st["prefill"] == "0:0" else st["prefill"]
+                got_now = pf_now if (res["set"] == "-" and res["rc"] == 0) else res["set"]     # "-": the output still equals what it held
+                res_cmp = (res["rc"], got_now)
+                if prev is not None and prev[0] != st["prefill"] and (prev[1], prev[2]) != res_cmp and \
+                        not (call["cmd"] in ("glcl", "gplcl") and st.get("stat") is None):
+                    bad.append(("get-overwrites-output:" + call["cmd"], "output pre-filled with %s: rc=%d set=%s; pre-filled with %s: rc=%d set=%s" % (
+                        prev[0], prev[1], prev[2], st["prefill"], res["rc"], got_now)))
+                same_call[k] = (st["prefill"], res["rc"], got_now)
             for key, what in bad:
                 run.violation(key, what + "  [" + l + "]", replay)
             if canon(a, call, T, mode, st) != canon(b, call, T, mode, st):
@@ -445,6 +475,19 @@ def build_scripts(run, exe):
                     s += ["os stat " + G.stat_line(4242, nm, pu).hex(), "glcl 0", "glcl 1", "glcl 2", "gplcl self 0", "gplcl self 2", "gplcl 0 2"]
                 s += ["os stat " + b"4242 (x".hex(), "glcl 0", "os stat " + b"4242 (x) S 1 2".hex(), "gplcl self 2", "os stat empty", "glcl 1", "os stat -"]
                 s += G.gen_os_state(rng)
+            if proc == 0:
+                # every get-call with its OUTPUT bitmap pre-filled three ways (an unrelated set, everything, nothing):
+                # the answers must be identical and equal to the model's
+                gets = ["gcb 0", "gcb 1", "gcb 2", "gcb 4", "gpcb self 0", "gpcb 0 2", "gpcb self 4", "gtcb 0", "gtcbo 0", "glcl 2", "glcl 0", "gplcl self 2",
+                        "gmb 0", "gmb 32", "gmb 34", "gpmb 0 32", "gamb 4096 0", "gamb 8192 32", "gaml 4096 0", "gaml 4096 32"]
+                top = max(T.ccs.fin.bit_length(), T.cns.fin.bit_length(), 2)
+                unrelated = G.BS(False, (1 << (top - 1)) | (1 << (top + 3)) | 2)
+                s += ["os ret all 0 0", "os stat -"]
+                for mline in ("mode os", "mode hooks 3fffff"):
+                    s += [mline] + (["hookret all 0 keep 0:5 3"] if "hooks" in mline else [])
+                    for pf in (unrelated.text(), "1:0", "0:0"):
+                        s += ["prefill " + pf] + gets
+                s += ["prefill default", "mode os"] + G.gen_os_state(rng)
             if proc == 0:
                 # the membind stream: whole-topology / covering / just-short sets on every set-like entry point, by
                 # cpuset and BY NODESET, through the installed hooks and through all-present spy hooks
